@@ -53,6 +53,7 @@ type Run struct {
 	extra       map[string]any
 	floors      []floor
 	inconcl     []string
+	undecided   []string
 	replayOnly  string
 	sigSeen     map[string]int
 	kf          *KnownFindings
@@ -187,6 +188,16 @@ func (r *Run) Inconclusive(reason string) {
 	r.mu.Unlock()
 }
 
+// Undecided records a single case that ended without a verdict for reasons
+// outside the code under test (a history checker that ran out of time on a
+// loaded machine, ...). A few of them are tolerated and only reported in the
+// evidence; more than max(2, evaluations/50) make the whole run inconclusive.
+func (r *Run) Undecided(reason string) {
+	r.mu.Lock()
+	r.undecided = append(r.undecided, reason)
+	r.mu.Unlock()
+}
+
 // A Witness is what is written to a replay file.
 type Witness struct {
 	Property string `json:"property"`
@@ -247,6 +258,11 @@ func (r *Run) Finish() {
 func (r *Run) finish() int {
 	r.mu.Lock()
 	defer r.mu.Unlock()
+	if n := len(r.undecided); n > 0 {
+		if tol := max(2, int(r.evals/50)); n > tol {
+			r.inconcl = append(r.inconcl, fmt.Sprintf("%d cases ended without a verdict (tolerated: %d), e.g. %s", n, tol, r.undecided[0]))
+		}
+	}
 	for _, f := range r.floors {
 		if r.counters[f.counter] < f.min {
 			r.inconcl = append(r.inconcl, fmt.Sprintf("coverage floor missed: %s=%d < %d", f.counter, r.counters[f.counter], f.min))
@@ -284,6 +300,9 @@ func (r *Run) finish() int {
 	}
 	if len(r.inconcl) > 0 {
 		cov["inconclusive"] = r.inconcl
+	}
+	if len(r.undecided) > 0 {
+		cov["cases_without_verdict"] = r.undecided
 	}
 	ev := map[string]any{
 		"property_id": r.ID,
